@@ -152,7 +152,14 @@ func cmdRun(prop, tier, only string, verbose bool, workers int, solverBin string
 	if xbin == "none" {
 		xbin = ""
 	}
-	rc := RunConfig{XCheckBin: xbin, Workers: workers, SolverBin: solverBin, TimeoutMs: tc.TimeoutMs, MaxSteps: tc.MaxSteps,
+	rbin := os.Getenv("VERIF_RESCUE")
+	if rbin == "" {
+		rbin = "z3-new"
+	}
+	if rbin == "none" || rbin == solverBin {
+		rbin = ""
+	}
+	rc := RunConfig{XCheckBin: xbin, RescueBin: rbin, Workers: workers, SolverBin: solverBin, TimeoutMs: tc.TimeoutMs, MaxSteps: tc.MaxSteps,
 		MaxDecisions: tc.MaxDecisions, MaxPaths: tc.MaxPaths, Deadline: tc.Deadline, Verbose: verbose}
 	if os.Getenv("VERIF_BRANCHSTATS") != "" {
 		branchStats = map[string]int{}
@@ -312,8 +319,10 @@ func cmdRun(prop, tier, only string, verbose bool, workers int, solverBin string
 	var samples []interface{}
 	incomplete := []string{}
 	xchecked := 0
+	rescued := 0
 	for _, hr := range results {
 		xchecked += hr.XChecked
+		rescued += hr.Rescued
 		for _, d := range hr.XDisagree {
 			engineErrors = append(engineErrors, "solver disagreement: "+hr.Name+": "+d)
 		}
@@ -409,6 +418,8 @@ func cmdRun(prop, tier, only string, verbose bool, workers int, solverBin string
 		"solver":                 solverBin + " (one process per worker, push/pop)",
 		"cross_check_solver":     xbin,
 		"cross_checked_verdicts": xchecked,
+		"second_solver_on_unknown": rbin,
+		"unknown_decided_by_second_solver": rescued,
 	}
 	for _, u := range undischarged {
 		fmt.Println("UNDISCHARGED", u)
